@@ -126,13 +126,21 @@ prop("C15", ["prims.go", "c15.go"],
      "reattach-after-death histories longer than one step; the plugin side of test mode (Serve with ServeTestConfig) in this run",
      text="Bounded symbolic model checking of the real reattach / ReattachConfig / Kill with cmdrunner.ReattachFunc, CmdAttachedRunner and pidWait: nothing listening => ErrProcessNotFound; address, protocol (net/rpc default) and ReattachConfig are the running plugin's; Kill on a reattached client kills that process, and in test mode leaves it alive.",
      note="Bound: single reattach step per path. Process table, dial and ticker are models. " + ENGINE)
-prop("C14", ["prims.go", "c15.go"],
-     [run("reattach-allowed", "harnessC15", ["reattached"],
+WORLD = ["prims.go", "w_base.go", "w_net.go", "w_yamux.go", "w_grpc.go", "w_compose.go", "w_harness.go"]
+WORLD_ASSUME = ["world model (harness/w_*.go): processes with per-process environment, pipes, ghost file system, listeners and connections by address, yamux sessions/streams as FIFO pairs, net/rpc calls served by the real receiver in a goroutine of the peer process with marshalled (copied) arguments, gRPC cut at the generated-code interfaces (real broker/controller/stdio implementations registered and served), crypto/tls as a contract over tls.Config fields with certificates as identities",
+                "the plugin process runs go-plugin's real Serve; the host runs the real NewClient/Start/Client/Dispense/Kill; launch through a RunnerFunc runner or through exec.Cmd models under the real CmdRunner"]
+WORLD_STUBS = ["os/exec", "os (files, pipes, env, exit)", "net", "bufio", "io.Copy", "context", "crypto/tls", "crypto/x509", "encoding/base64", "generateCert", "yamux", "net/rpc", "grpc", "health/reflection registration", "cmdrunner.additionalNotesAboutCommand"]
+prop("C14", WORLD,
+     [run("matrix", "harnessC14matrix", ["works", "protocol-refused", "tls-mismatch", "automtls", "mux"],
+          quick={"bound": "host x plugin composed: plugin protocol {net/rpc, gRPC} x AllowedProtocols {default, both, gRPC only} x transport security {none, AutoMTLS, static TLS both sides, host only, plugin only} x launch {RunnerFunc, exec.Cmd} x multiplexing {off, on (gRPC)}; healthy plugin; Start, Client, Dispense (known and unknown name), call, Ping, Kill"}),
+      run("mux-unsupported", "harnessC14oldPlugin", ["mux-unsupported"], quick={"bound": "a gRPC plugin announcing six fields, host requesting multiplexing; both launch methods"}),
+      run("legacy-lines", "harnessC14legacyLines", ["legacy-accepted", "legacy-refused"], quick={"bound": "scripted plugins announcing 4-field, 5-field net/rpc and 5-field gRPC lines x three allowed lists x both launch methods"}),
+      run("reattach-allowed", "harnessC15", ["reattached", "refused-protocol"], files=["prims.go", "c15.go"],
           quick={"bound": "reattach half of the matrix: Reattach.Protocol in {\"\", netrpc, grpc} x AllowedProtocols in three lists x Test flag"})],
-     [NET, CTX], ["as C15"],
-     "the launch half of the cross product (plugin Serve composed with host Start) and post-connect behaviour - not yet built",
-     text="Bounded symbolic model checking of the reattach half of the compatibility matrix on the real reattach(): whenever the client ends up connected, the protocol it will speak is in its AllowedProtocols list.",
-     note="Only the reattach half is decided so far; the launch matrix and dispense-by-name are future work recorded in DESIGN.md. " + ENGINE)
+     WORLD_ASSUME, WORLD_STUBS,
+     "brokered callbacks and large responses inside the matrix run (brokers are C06-C08's subject); SecureConfig (C13); reattach to a composed plugin (C15)",
+     text="Bounded symbolic model checking of the host's real Start/Client/Dispense/Ping/Kill composed with the plugin's real Serve in one run over the cross product of protocol, allowed list, transport security, launch method and multiplexing: compatible configurations work end to end, an announced protocol outside the allowed list is refused at start and the plugin terminated (also for legacy handshake lines and for reattach), a multiplexing request to a plugin that does not advertise it fails with the dedicated error, a transport-security mismatch surfaces as an error on first use, unknown plugin names are errors; never a hang or a panic.",
+     note="Bound: one healthy plugin per run; the full configuration cross product listed in the evidence. Transport security is the crypto/tls contract model (certificates as identities). " + ENGINE)
 
 # ------------------------------------------------------------------------------------------------ C12
 prop("C12", ["prims.go", "c12.go"],
